@@ -42,6 +42,9 @@ type Config struct {
 	AutoUF       bool            // callees without body or model become uninterpreted pure functions (sweep)
 	UF0          map[string]bool // functions replaced by an arbitrary constant result per path (their argument does not change during the run)
 	UF           map[string]bool // functions replaced by uninterpreted pure functions of their arguments (stub by contract)
+	AltSolver    string // second-opinion solver for queries the primary leaves unknown ("" = none)
+	AltTimeoutMs int
+	NoSpareCap   bool  // do not explore "input slice has spare capacity" at append (append always reallocates)
 	LazyFeas     bool  // do not ask the solver at forks: both sides are explored, feasibility is decided at assertions and at the end of a path
 	Deadline     time.Time
 	Merge        map[string]bool
@@ -252,6 +255,7 @@ func (e *Exec) reviveSolver() {
 	old.Close()
 	ns := NewSolver(e.cfg.Solver, e.cfg.TimeoutMs, "")
 	ns.Queries, ns.Dur, ns.Errors, ns.Kills = old.Queries, old.Dur, old.Errors, old.Kills
+	ns.AltName, ns.AltTimeout, ns.AltQueries, ns.AltDecided, ns.AltDur = old.AltName, old.AltTimeout, old.AltQueries, old.AltDecided, old.AltDur
 	e.s = ns
 	ns.Send("(push 1)")
 	for _, l := range e.pcLines {
